@@ -22,6 +22,9 @@ pub mod c16;
 pub mod c17;
 #[cfg(feature = "full")]
 pub mod c18;
+#[cfg(feature = "full")]
+pub mod c19;
+pub mod c20;
 
 pub struct Spec {
     pub id: &'static str,
@@ -168,6 +171,23 @@ pub fn all() -> Vec<Spec> {
             run: c18::run,
             level: "exploration",
             rule: "sequential monitor: random histories (3..30 ops) over {set, clear, check, watch, next(watcher)} on services {'', 'a', 'b'} through the generated HealthClient over the in-process transport; watchers are polled the way an executor would (only when never polled or woken since their last Pending), then run to quiescence once updates stop. Oracle = sequential model: check = latest set / NOT_FOUND ('' SERVING by default); watch of an unregistered name NOT_FOUND; every reported status is a subsequence of the statuses that registration held since subscription; at quiescence the last report equals the registration's latest status; a cleared registration ends its streams after the unreported final status; a registered one never ends. concurrent monitor: multi-thread runtime, 2-3 writers (set/clear), 2-3 checkers, 1-3 watchers, operations timestamped at the client boundary; per-service Wing-Gong linearizability search against a register model (2 s timeout => inconclusive) plus watch constraints (only set values, last = final status). Fingerprint = leg|history size class|#watchers|#clears (sequential) or task counts (concurrent). Non-trivial = history with at least one watcher.",
+            exhaustive: false,
+            assumptions: COMMON_ASSUMPTIONS,
+        },
+        #[cfg(feature = "full")]
+        Spec {
+            id: "C19",
+            run: c19::run,
+            level: "exploration",
+            rule: "1..4 generated files (package absent / single / nested, plain or nested file names) with messages nested to depth 3 (including field-less 'namespace' messages that only contain nested declarations), fields, oneofs, nested and top-level enums with values, services with methods, all names unique; the files are grouped into 1..3 registration sets, optionally with a shared file placed first in every set followed by new files, optionally with a file repeated, each set registered decoded or encoded; built as v1 and v1alpha with/without include_reflection_service and with_service_name; the harness walks the descriptors itself to enumerate every fully-qualified name with its declaring file and queries them all (shuffled) on one bidi stream through the generated clients, plus every file name and ListServices; mutated/unknown names (suffix, truncation, leading/trailing dot, case, foreign package, bare package) are asked on their own streams. Oracle: each declared name/file returns exactly one descriptor that prost decodes to a value equal to the registered file; ListServices equals the declared (or chosen) services as a multiset; unknown names NOT_FOUND; v1 and v1alpha answer identically. Enum values are addressed as <enum>.<VALUE>; the C++-scoped spelling is left unconstrained. Fingerprint = #files|#sets|duplicate|shared-then-new|include|chosen|#symbols class. Non-trivial = at least 5 declared symbols.",
+            exhaustive: false,
+            assumptions: COMMON_ASSUMPTIONS,
+        },
+        Spec {
+            id: "C20",
+            run: c20::run,
+            level: "exploration",
+            rule: "vec monitor: Vec<ErrorDetail> of length 0..12 over the 10 standard kinds (repeats, any order; Unicode/empty strings, 0..5 violations/links, retry delays incl. 0, 1 ns, > i64::MAX ns, the protobuf maximum) attached with with_error_details_vec[_and_metadata]; set monitor: every subset of the 10 kinds (the 1024 masks are walked systematically) attached with with_error_details; each status goes through Status::into_http and Status::from_header_map, then check_/get_ and the per-kind getters are compared field-wise with what was attached, and the embedded google.rpc.Status parsed by the harness's own protobuf parser must carry the outer code, message and the number of details. garbage monitor: arbitrary bytes, truncated valid encodings, bit flips, Any with a known type URL and a garbage value: no panic, get_ is empty when check_ fails. Fingerprint = leg|length class|#distinct kinds|metadata (vec), the kinds mask (set), kind and decode outcomes (garbage). Non-trivial = at least one detail / any garbage input.",
             exhaustive: false,
             assumptions: COMMON_ASSUMPTIONS,
         },
